@@ -27,12 +27,14 @@ def after_async(tier):
 def run(tier):
     if tier == "quick":
         scs = [dict(scenario="c02l", p=2, m=2, bound=3), dict(scenario="c02l", p=3, m=2, bound=2), dict(scenario="c02l", p=2, m=3, bound=2),
-               dict(scenario="c02b", p=2, m=2, bound=3), dict(scenario="c02b", p=3, m=2, bound=2), dict(scenario="c02b", p=4, m=1, bound=2)]
+               dict(scenario="c02b", p=2, m=2, bound=3), dict(scenario="c02b", p=3, m=2, bound=2), dict(scenario="c02b", p=4, m=1, bound=2),
+               dict(scenario="c02chain", p=2, m=2, bound=3), dict(scenario="c02chain", p=3, m=1, bound=2), dict(scenario="c02chain", p=4, m=1, bound=2)]
         dl = 150
         scs += after_async(tier)
     else:
         scs = [dict(scenario="c02l", p=2, m=2, bound=4), dict(scenario="c02l", p=3, m=2, bound=3), dict(scenario="c02l", p=4, m=1, bound=3),
-               dict(scenario="c02b", p=2, m=2, bound=4), dict(scenario="c02b", p=3, m=2, bound=3), dict(scenario="c02b", p=4, m=2, bound=2), dict(scenario="c02b", p=5, m=1, bound=2)]
+               dict(scenario="c02b", p=2, m=2, bound=4), dict(scenario="c02b", p=3, m=2, bound=3), dict(scenario="c02b", p=4, m=2, bound=2), dict(scenario="c02b", p=5, m=1, bound=2),
+               dict(scenario="c02chain", p=2, m=2, bound=4), dict(scenario="c02chain", p=3, m=2, bound=2), dict(scenario="c02chain", p=4, m=1, bound=3)]
         dl = 1500
         scs += after_async(tier)
     return vsrun.vs_check(
@@ -43,6 +45,7 @@ def run(tier):
              "calling process() of a bare OwnThreadHandler<Pipeline> that was never moved to a thread) through [probe-in, SeqNumberAttr, DuplicateFilter, PrettyFormatter, sink A, "
              "sub-pipeline{filter even producers, sink B}, probe-out]; probes and sinks contain yield points (handlers of arbitrary duration); oracle on EVERY execution: in-flight count "
              "between the probes never exceeds 1, every message reaches every qualifying sink exactly once, per-producer order, seq_number 0,1,2.. in delivery order, no deadlock; "
+             "c02chain: two own-thread-capable pipelines of the same class, the second a handler of the first and also fed directly by the odd producers (no two threads inside its sink); "
              "in c02l the last message of producer 0 is a fatal one (the logger flushes its sinks for it: send and flush of a sink must never overlap). Scenarios c04x*: synchronous mode reached from an "
              "asynchronous phase - operation histories (move, log without an application object so that messages stay queued, stop) with a second thread logging 1-2 messages from every position: no two "
              "threads inside a sink, exactly once, per-thread order, first-in-first-out in real time; distinct_nontrivial = distinct delivery orders observed",
